@@ -472,7 +472,7 @@ def gen_op(rng, w):
         if rng.random() < 0.2:
             return ['ucat', [ul() for _ in range(rng.randint(2, 4))], rng.choice(['args', 'list'])]
         return ['uset', rng.choice(['concat', 'remove', 'intersect', 'union', 'xor', 'unique']), ul(), ul(), rng.choice(['op', 'method'])]
-    if len(w.order) < 10:
+    if len(w.order) < 10 and len(au) == n:      # registration after removals is C10's business (it is mis-sized / refused)
         t = rng.choice(TYPES)
         d = rng.choice([['unset'], ['const', rand_val(rng, t, allow_nan=False)]] + ([['affine', 0.0, 0.25]] if t == 'float' else []))
         return ['late', dict(name=f'late{len(w.order)}', type=t, default=d)]
